@@ -351,10 +351,11 @@ def c19(tier, seed):
     rs = core.drive_and_validate(res, shards, core.dev_set(), "the same call sequence gave a different result under another RWMode/StartFileLoadingMode/SyncEnable/RAM index mode",
                                  "product runs: the same seeded history executed under every combination of RWMode x StartFileLoadingMode x SyncEnable (x both RAM index modes for KV histories, with merges), compared event by event")
     res.cov["samples"] = core.sample_events(rs[0]["trace"], 5, ops={"get", "obs", "open", "commit"})
-    res.cov["distinct_nontrivial"] = res.cov["evaluations"]
-    res.extra["configurations_per_history"] = {"productkv": 16, "product": 8}
+    res.cov["distinct_nontrivial"] = res.extra.get("nontrivial", {}).get("product_distinct_calls", 0)
+    res.extra["configurations_per_history"] = {"productkv": 16, "product": 8, "productfill": 8, "productsparse": 24}
     res.cov["rule"] = ("every event carries one digest of (operation, arguments, results) per configuration; TLC requires all digests equal (AltOK) "
-                       "and the first configuration's event to be a step of Nuts.tla; evaluations = events compared across all configurations")
+                       "and the first configuration's event to be a step of Nuts.tla; evaluations = events validated; distinct_nontrivial = positions of a product history "
+                       "whose (operation, arguments, result) differs from every earlier position, each compared across all configurations")
     res.assumptions += ["digests are computed by the driver (sha1 of the normalised event); their equality is judged by TLC"]
     return res.finish()
 
